@@ -148,8 +148,7 @@ func execScript(s *scriptScn) *scriptObs {
 		o.Fail = "transport: " + err.Error()
 		return o
 	}
-	recs := [2]*recConn{newRec(ca, s.Cut[0]), newRec(cb, s.Cut[1])}
-	recs[0].cutErr, recs[1].cutErr = s.CutErr[0], s.CutErr[1]
+	recs := [2]*recConn{newRecErr(ca, s.Cut[0], s.CutErr[0]), newRecErr(cb, s.Cut[1], s.CutErr[1])}
 	defer func() {
 		recs[0].Conn.Close()
 		recs[1].Conn.Close()
